@@ -18,7 +18,7 @@ SAMPLES = [
 ]
 PIECES = [b"wire", b"const", b"register", b" ", b"\n", b"\r\n", b"\r", b"\t", b";", b":", b"=", b"==", b"[", b"]", b"{", b"}", b"(", b")",
           b"..", b",", b"0x", b"0b", b"0b102", b"12ab", b"/*", b"*/", b"//", b"#", b"x", b"Stat", b"pc", b"\xc3\xa9", b"\xe2\x82\xac",
-          b"\xff", b"\xc3", b"\xe2\x82", b"\xf0\x9f\x98\x80", b"\x00", b"\xef\xbb\xbf", b"340282366920938463463374607431768211456",
+          b"\xff", b"\xc3", b"\xe2\x82", b"\xc2\xa0", b"\xe2\x80\xa8", b"\xe3\x80\x80", b"\xc2\x85", b"\xf0\x9f\x98\x80", b"\x00", b"\xef\xbb\xbf", b"340282366920938463463374607431768211456",
           b"&&", b"||", b"!", b"~", b"<<", b"in", b"1", b"0", b"\"", b"'", b"$", b"@", b"\\"]
 
 
@@ -45,7 +45,9 @@ def gen(rnd):
         return bytes(s), "byte-substituted"
     if mode == 6:
         return bytes(s).replace(b"\n", rnd.choice([b"\r\n", b"\r"])), "line-endings"
-    return bytes(s) + rnd.choice([b" x = 0x", b" x = 0b", b" /* open", b" x = y\xe2\x82", b" x = y\xe2\x82\xac", b" # c", b"/"]), "ends-inside-a-token"
+    return bytes(s) + rnd.choice([b" x = 0x", b" x = 0b", b" /* open", b" x = y\xe2\x82", b" x = y\xe2\x82\xac", b" # c", b"/",
+                                   b" x = 1 +\xc2\xa0\n\n", b" x = 1 +\xe2\x80\xa8 \n", b" x = (\xe3\x80\x80  ", b" wire q\xc2\xa0\xc2\xa0",
+                                   b" register qR {\n  a : 8 = 0\n", b" x = 1 + # c\n\n", b" x = [ 1 : 2;\xc2\x85\n"]), "ends-inside-a-token"
 
 
 def generate(binary, seed, count, outfile, workdir):
